@@ -509,8 +509,16 @@ pub fn finish(ctx: &Ctx, st: &Stats, fin: Finish, replay: ReplayFn) -> i32 {
                 None => replay(case),
             }
         };
-        let r1 = guarded(|| do_replay(&v.case)).unwrap_or_else(|p| Err(format!("panic in replay: {}", p)));
-        let r2 = guarded(|| do_replay(&v.case)).unwrap_or_else(|p| Err(format!("panic in replay: {}", p)));
+        // a run that is itself the replay of a whole-check violation (library panic in set-up code) must not
+        // replay again: that would recurse without end
+        let (r1, r2) = if ctx.flag("--no-replay") {
+            (Err(v.msg.clone()), Err(v.msg.clone()))
+        } else {
+            (
+                guarded(|| do_replay(&v.case)).unwrap_or_else(|p| Err(format!("panic in replay: {}", p))),
+                guarded(|| do_replay(&v.case)).unwrap_or_else(|p| Err(format!("panic in replay: {}", p))),
+            )
+        };
         match (&r1, &r2) {
             (Err(a), Err(b)) if a == b => {
                 println!("VIOLATION property={} replay={}", ctx.id, path.display());
@@ -796,7 +804,7 @@ pub fn replay_generic(id: &str, case: &Value) -> Option<Result<(), String>> {
         Some("library-panic") => {
             // re-run the whole check in a fresh process and look for the same location
             let exe = std::env::current_exe().ok()?;
-            let out = std::process::Command::new(exe).arg(id).arg("--tier").arg(case["tier"].as_str().unwrap_or("quick")).arg("--no-evidence").output().ok()?;
+            let out = std::process::Command::new(exe).arg(id).arg("--tier").arg(case["tier"].as_str().unwrap_or("quick")).arg("--no-evidence").arg("--no-replay").output().ok()?;
             let so = String::from_utf8_lossy(&out.stdout).to_string();
             let loc = case["location"].as_str().unwrap_or("");
             if so.contains(&format!("library-panic:{}", loc)) {
